@@ -158,6 +158,17 @@ struct dispatch_table
         }
     };
 
+    // calls a row whose trigger is a base class of Event. The reference is converted,
+    // the base does not have to sit at offset 0 of the event.
+    template <class Transition>
+    struct call_base_event_row
+    {
+        static HandledEnum execute(Fsm& fsm, int region_index, int state, Event const& evt)
+        {
+            return Transition::execute(fsm,region_index,state,evt);
+        }
+    };
+
     // A function object for use with mpl::for_each that stuffs
     // transitions into cells.
     struct init_cell
@@ -165,6 +176,20 @@ struct dispatch_table
         init_cell(dispatch_table* self_)
           : self(self_)
         {}
+        // the row is triggered by Event itself
+        template <class Transition>
+        static cell row_cell(::boost::mpl::true_ const &)
+        {
+            // reinterpret_cast to uintptr_t to suppress gcc-11 warning
+            return reinterpret_cast<cell>(
+                reinterpret_cast<std::uintptr_t>(&Transition::execute));
+        }
+        // the row is triggered by a base class of Event
+        template <class Transition>
+        static cell row_cell(::boost::mpl::false_ const &)
+        {
+            return &call_base_event_row<Transition>::execute;
+        }
         // version for transition event not base of our event
         // first for all transitions, then for internal ones of a fsm
         template <class Transition>
@@ -176,9 +201,8 @@ struct dispatch_table
             typedef typename create_stt<Fsm>::type stt; 
             BOOST_STATIC_CONSTANT(int, state_id = 
                 (get_state_id<stt,typename Transition::current_state_type>::value));
-            // reinterpret_cast to uintptr_t to suppress gcc-11 warning
-            self->entries[state_id + 1] = reinterpret_cast<cell>(
-                reinterpret_cast<std::uintptr_t>(&Transition::execute));
+            self->entries[state_id + 1] = row_cell<Transition>(
+                typename ::boost::is_same<typename Transition::transition_event,Event>::type());
         }
         template <class Transition>
         typename ::boost::enable_if<
@@ -186,7 +210,8 @@ struct dispatch_table
         ,void>::type
         init_event_base_case(Transition const&, ::boost::mpl::true_ const &, ::boost::mpl::false_ const &) const
         {
-            self->entries[0] = reinterpret_cast<cell>(&Transition::execute);
+            self->entries[0] = row_cell<Transition>(
+                typename ::boost::is_same<typename Transition::transition_event,Event>::type());
         }
 
         // version for transition event is boost::any
